@@ -382,6 +382,9 @@ def light_of(m):
 
 KNOWN_CODES = [0, 1, 2, 3, 4, 7, 8, 10, 11, 12, 13, 16, 32, 34, 48, 49, 50, 51, 53, 80]
 UNKNOWN_CODES = [9, 15, 35, 70, 81, 118, 4096, 8235]
+# unknown codes on the edges of the integer encoding: 5+ content octets, negative, congruent to known codes modulo 2**8/16/32
+EDGE_CODES = [2 ** 32 + 14, 2 ** 40 + 14, -4294967282, 2 ** 32, 4294967295, -1, 2 ** 31, 256 + 14, 65536 + 14, 2 ** 32 + 49,
+              -2147483648, 2 ** 63, 255, 256, -128]
 GENERIC_OIDS = ["1.2.826.0.1.3344810.2.3", "2.16.840.1.113730.3.4.2", "1.3.6.1.1.12", "1.1", "9.9.9.9.1"]
 ATTRS = ["cn", "objectClass", "sAMAccountName", "member;range=0-*", "1.2.840.113556.1.4.221", "userCertificate;binary",
          "o", "dc"]
@@ -400,6 +403,7 @@ class Gen:
 
     def __init__(self, rng, big=0.08, huge=0.0, odd_ints=False, customs=(), rich=True, bad_text=0.0):
         self.r = rng
+        self.odd_known = False  # set by byzantine peers only: known value-less controls carrying a value
         self.bad_text = bad_text  # probability of a str that cannot be encoded (lone surrogate): the send call must fail cleanly
         self.big = big
         self.huge = huge
@@ -453,9 +457,11 @@ class Gen:
         x = r.random()
         if x < 0.5:
             return 0
-        if x < 0.85:
+        if x < 0.82:
             return r.choice(KNOWN_CODES)
-        return r.choice(UNKNOWN_CODES)
+        if x < 0.94:
+            return r.choice(UNKNOWN_CODES)
+        return r.choice(EDGE_CODES)
 
     def control(self):
         r = self.r
@@ -463,6 +469,10 @@ class Gen:
         crit = r.random() < 0.4
         if k == 0 or k == 4:
             return {"t": "Control", "type": r.choice(GENERIC_OIDS), "critical": crit, "value": self.opt_blob(0.4)}
+        if self.odd_known and r.random() < 0.25:
+            # a value-less known control that a (foreign) peer nevertheless sends with a value
+            return {"t": "Control", "type": r.choice(["1.2.840.113556.1.4.417", "1.2.840.113556.1.4.2065"]), "critical": crit,
+                    "value": r.choice(["", "00", "3000", "deadbeef"])}
         if k == 1:
             return {"t": "Paged", "critical": crit, "size": r.choice(INT_OK), "cookie": self.blob()}
         if k == 2:
